@@ -8,6 +8,16 @@ import OW.Kernels.InstreamParticulateNutrient
 import OW.Kernels.C16.Conversions
 import OW.Kernels.C16.Partitions
 import OW.Kernels.C16.LoadGen
+import OW.Kernels.C16.BankErosion
+import OW.Kernels.C16.UsleFine
+import OW.Kernels.C16.SednetGully
+import OW.Kernels.Simhyd
+import OW.Kernels.Surm
+import OW.Kernels.InstreamDissolvedNutrient
+import OW.Kernels.InstreamFineSediment
+import OW.Kernels.StorageParticulateTrapping
+import OW.Kernels.StorageDissolvedDecay
+import OW.Kernels.Climate
 /-!
 # GenTie — the syntactic tie between the hand-written kernel models and the current Go source
 
@@ -30,9 +40,34 @@ A source change that alters the arithmetic of a kernel makes its theorem fail (`
 proof obligation naming the theorem). Renaming locals, introducing temporaries or reordering independent assignments
 leaves the generated term definitionally equal and the theorem keeps checking.
 
-Two hand models spell a Go literal differently from the source (`0.0` written as `Num.zero`; `0` written as `0.0`). Over an
-abstract `Num α` differently spelled literals are different terms, so these two theorems carry the literal identity as a
-hypothesis (`LitZero`, `NatZero`); `litZero_float` shows the first holds at `Float` by `rfl`.
+Further forms (kernels outside the plain single-loop shape):
+
+* HELPER functions of the source (all-float64 signature) are translated to definitions of the kernel's namespace and proved
+  equal to the hand model's functions (`gen_eq_InstreamFineSediment_floodPlain`, `…_inChannel`, the conjuncts of
+  `gen_eq_ClimateVariables`, `bankErosion.pre = meanAnnualBankErosion`);
+* a HIDDEN state (carried between iterations, not returned: `prevVolume` of `instreamDissolvedNutrient`) is an extra
+  component of the state of `init` / `step`; a series element read before the loop (`reachVolume[0]`) is an extra argument;
+* DELEGATION: `if cond { x = Callee(…); return … }` before the loop, or a body that is one call of another kernel function:
+  `delegates = cond`, `delegateInit`, `delegateStep` (one iteration of the callee, translated with the nil-pattern and the
+  function arguments of the call, in terms of the caller's parameters and series), `delegateFinal` are proved equal to the
+  branch of the hand model (`gen_eq_StorageDissolvedDecay`, `gen_eq_InstreamDissolvedNutrient`, `gen_eq_SednetGully`,
+  `gen_eq_SednetGullyAlt`);
+* a helper with a bounded loop (`for i := 0; i < 40; i++ { …; if … { break } }` of `calcWetBulb`) is translated to
+  `boundedLoop body 40 carried` (defined at the top of the generated file) and proved equal to the hand model's recursion
+  by induction on the bound (`gen_eq_ClimateVariables_bisect`);
+* a function with an error result that works on whole series (`fn.Piecewise` in `ratingPartition`) is NOT translated: it
+  is an argument of `step` (type `α → σ → σ → Option α`, `none` = error, on which the code panics), `step` returns an
+  `Option` (`none` = the loop body panics) and the theorem instantiates the argument with the hand model of that function;
+* NOT translated, and said so in the generated file and in the evidence: the body of the `bankFullFlow <= 1e-8` branch of
+  `instreamFineSediment` (`abstractBranch`: only its condition is tied).
+
+Literal identities. Over an abstract `Num α` differently spelled literals are different terms; where a hand model spells a Go
+constant differently from the (exactly folded, once rounded) constant of the source, the theorem carries the identity as a
+hypothesis: `LitZero` (`0.0` = `Num.zero`), `NatZero` (`0` = `0.0`), `Lit1000`, `Lit86400` — all true at `ℝ`
+(`GenTieReal.lean`) and at `Float` — and `TwoPi`, `AnnualToDaily`, where the hand model writes a constant EXPRESSION of the
+source differently (31 digits of 2π; the run-time quotient `1 / 365.25`): the same float64, but different reals, so those two
+ties hold at `Float` (where the models are executed) and are modulo that literal at `ℝ`. `litChecks` evaluates all of them at
+`Float` when this file is compiled (`#guard`; a test, not a proof: `Float` literals are opaque to the kernel).
 -/
 namespace OW.Props.GenTie
 open OW OW.Kernels OW.Gen.K
@@ -157,6 +192,31 @@ theorem gen_eq_VariablePartition {α} [Num α] (incoming frac : α) :
     VariablePartition.step (incoming, frac) = variablePartition.step incoming frac ∧
     variablePartition.guard (α := α) = false := ⟨rfl, rfl⟩
 
+/-- `ratingPartition`. `fn.Piecewise` is NOT translated: `step` takes it as an argument (`none` = its error result is
+non-nil, on which the code panics), here the hand model's `Fn.piecewise` on the two table series; where that function itself
+panics (empty table) the loop body is not reached. A `none` of `step` is a panic of the loop body (class "other"). -/
+theorem gen_eq_RatingPartition {α} [Num α] (inputAmount proportion : List α) (incoming : α) :
+    ratingPartition.guard (α := α) = false ∧
+    RatingCurvePartition.step inputAmount proportion incoming =
+      (match Fn.piecewise incoming inputAmount proportion with
+       | .panic e => .error e
+       | _ =>
+         match ratingPartition.step (σ := List α)
+             (fun x xs ys => match Fn.piecewise x xs ys with | .val v => some v | _ => none)
+             incoming inputAmount proportion with
+         | none => .error "other"
+         | some r => .ok r) := by
+  refine ⟨rfl, ?_⟩
+  unfold RatingCurvePartition.step ratingPartition.step
+  dsimp only
+  generalize Fn.piecewise incoming inputAmount proportion = r
+  cases r with
+  | panic e => rfl
+  | err => rfl
+  | val frac =>
+    dsimp only
+    split <;> rfl
+
 /-! ### models/functions -/
 
 /-- `sum` = `Sum.step` -/
@@ -217,5 +277,304 @@ theorem gen_eq_ParticulateNutrients {α} [Num α] (p : ParticulateNutrients.Para
        ⟨r.1, r.2.1, r.2.2.1, r.2.2.2.1, r.2.2.2.2⟩) := by
   unfold ParticulateNutrients.step particulateNutrients.step
   tie
+
+/-! ### models/rr/simhyd.go, surm.go -/
+
+/-- `simhyd` = `Simhyd.step` -/
+theorem gen_eq_Simhyd {α} [Num α] (i0 g0 t0 : α) (p : Simhyd.Params α) (st : Simhyd.State α) (rain pet : α) :
+    simhyd.init i0 g0 t0 p.baseflowCoefficient p.imperviousThreshold p.infiltrationCoefficient p.infiltrationShape
+      p.interflowCoefficient p.perviousFraction p.risc p.rechargeCoefficient p.smsc = (i0, g0, t0) ∧
+    simhyd.guard i0 g0 t0 p.baseflowCoefficient p.imperviousThreshold p.infiltrationCoefficient p.infiltrationShape
+      p.interflowCoefficient p.perviousFraction p.risc p.rechargeCoefficient p.smsc = false ∧
+    simhyd.step i0 g0 t0 p.baseflowCoefficient p.imperviousThreshold p.infiltrationCoefficient p.infiltrationShape
+      p.interflowCoefficient p.perviousFraction p.risc p.rechargeCoefficient p.smsc st.sms st.gw st.total rain pet =
+      (let r := Simhyd.step p st (rain, pet)
+       ((r.1.sms, r.1.gw, r.1.total), (r.2.runoff, r.2.quickflow, r.2.baseflow, r.2.store))) := by
+  refine ⟨rfl, rfl, ?_⟩
+  unfold simhyd.step Simhyd.step
+  simp only [Simhyd.soilEtConst]
+  tie
+
+/-- `surm` = `Surm.step`; the two pre-loop values are the `fperv` and `fieldCapacity` of the hand model -/
+theorem gen_eq_Surm {α} [Num α] (i0 g0 t0 : α) (p : Surm.Params α) (st : Surm.State α) (rain pet : α) :
+    surm.pre i0 g0 t0 p.bfac p.coeff p.dseep p.fcFrac p.fimp p.rfac p.smax p.sq p.thres = (1 - p.fimp, p.fcFrac * p.smax) ∧
+    surm.init i0 g0 t0 p.bfac p.coeff p.dseep p.fcFrac p.fimp p.rfac p.smax p.sq p.thres = (i0, g0, t0) ∧
+    surm.guard i0 g0 t0 p.bfac p.coeff p.dseep p.fcFrac p.fimp p.rfac p.smax p.sq p.thres = false ∧
+    surm.step i0 g0 t0 p.bfac p.coeff p.dseep p.fcFrac p.fimp p.rfac p.smax p.sq p.thres (1 - p.fimp) (p.fcFrac * p.smax)
+        st.sms st.gw st.total rain pet =
+      (let r := Surm.step p st (rain, pet)
+       ((r.1.sms, r.1.gw, r.1.total), (r.2.runoff, r.2.quickflow, r.2.baseflow, r.2.store))) := by
+  refine ⟨rfl, rfl, rfl, ?_⟩
+  unfold surm.step Surm.step
+  tie
+
+/-! ### models/storage -/
+
+/-- `storageParticulateTrapping` = `StorageParticulateTrapping.step` -/
+theorem gen_eq_StorageParticulateTrapping {α} [Num α] (ism : α) (p : StorageParticulateTrapping.Params α)
+    (storedMass inflowMass storageInflow storageOutflow storageVolume : α) :
+    storageParticulateTrapping.init ism p.deltaT p.reservoirCapacity p.reservoirLength p.subtractor p.multiplier
+      p.lengthDischargeFactor p.lengthDischargePower = ism ∧
+    storageParticulateTrapping.guard ism p.deltaT p.reservoirCapacity p.reservoirLength p.subtractor p.multiplier
+      p.lengthDischargeFactor p.lengthDischargePower = false ∧
+    storageParticulateTrapping.step ism p.deltaT p.reservoirCapacity p.reservoirLength p.subtractor p.multiplier
+        p.lengthDischargeFactor p.lengthDischargePower storedMass inflowMass storageInflow storageOutflow storageVolume =
+      (let r := StorageParticulateTrapping.step p storedMass (inflowMass, storageInflow, storageOutflow, storageVolume)
+       (r.1, (r.2.trappedMass, r.2.outflowLoad))) := by
+  refine ⟨rfl, rfl, ?_⟩
+  unfold storageParticulateTrapping.step StorageParticulateTrapping.step StorageParticulateTrapping.damTrappingPC
+  tie
+
+/-- `storageDissolvedDecay`: the branch `doStorageDecay < 0.5` runs `LumpedConstituentTransport` with a nil lateral series,
+`x = 0.0`, `pointInput = 0.0` and a nil point-source output (`StorageDissolvedDecay.stepOff`; the hand model of the lumped
+step writes the `0.0` of the flush branch as `Num.zero`: hypothesis `LitZero`); otherwise one iteration is `stepOn`. -/
+theorem gen_eq_StorageDissolvedDecay {α} [Num α] (hz : LitZero α)
+    (ism deltaT doStorageDecay ari bankFullFlow mfrt storedMass inflowMass storageInflow storageOutflow storageVolume : α) :
+    storageDissolvedDecay.delegates ism deltaT doStorageDecay ari bankFullFlow mfrt = decide (doStorageDecay < 0.5) ∧
+    storageDissolvedDecay.delegateInit ism deltaT doStorageDecay ari bankFullFlow mfrt = ism ∧
+    storageDissolvedDecay.delegateFinal ism deltaT doStorageDecay ari bankFullFlow mfrt storedMass = storedMass ∧
+    storageDissolvedDecay.delegateStep ism deltaT doStorageDecay ari bankFullFlow mfrt storedMass inflowMass storageOutflow storageVolume =
+      (let r := StorageDissolvedDecay.stepOff deltaT storedMass (inflowMass, storageInflow, storageOutflow, storageVolume)
+       (r.1, (r.2.decayedMass, r.2.outflowMass))) ∧
+    storageDissolvedDecay.init ism deltaT doStorageDecay ari bankFullFlow mfrt = ism ∧
+    storageDissolvedDecay.guard ism deltaT doStorageDecay ari bankFullFlow mfrt = false ∧
+    storageDissolvedDecay.step ism deltaT doStorageDecay ari bankFullFlow mfrt storedMass inflowMass storageOutflow storageVolume =
+      (let r := StorageDissolvedDecay.stepOn deltaT bankFullFlow mfrt storedMass (inflowMass, storageInflow, storageOutflow, storageVolume)
+       (r.1, (r.2.decayedMass, r.2.outflowMass))) := by
+  refine ⟨rfl, rfl, rfl, ?_, rfl, rfl, ?_⟩
+  · unfold LitZero at hz
+    unfold storageDissolvedDecay.delegateStep storageDissolvedDecay.delegate.step StorageDissolvedDecay.stepOff LumpedConstituent.step
+    simp only [LumpedConstituent.minimumVolume]
+    tie [hz]
+  · unfold storageDissolvedDecay.step StorageDissolvedDecay.stepOn
+    tie
+
+/-! ### models/generation: bank erosion, USLE, gully -/
+
+/-- `bankErosion` = `BankErosion.step`; the pre-loop value is `meanAnnualBankErosion` (helper translated from the source) -/
+theorem gen_eq_BankErosion {α} [Num α] (p : BankErosion.Params α) (meanAnnual outflow totalVolume : α) :
+    bankErosion.pre p.riparianVegPercent p.maxRiparianVegEffectiveness p.soilErodibility p.bankErosionCoeff p.linkSlope p.bankFullFlow p.bankMgtFactor p.sedBulkDensity p.bankHeight p.linkLength p.dailyFlowPowerFactor p.longTermAvDailyFlow p.soilPercentFine p.durationInSeconds = BankErosion.meanAnnualBankErosion p ∧
+    bankErosion.guard p.riparianVegPercent p.maxRiparianVegEffectiveness p.soilErodibility p.bankErosionCoeff p.linkSlope p.bankFullFlow p.bankMgtFactor p.sedBulkDensity p.bankHeight p.linkLength p.dailyFlowPowerFactor p.longTermAvDailyFlow p.soilPercentFine p.durationInSeconds = false ∧
+    bankErosion.step p.riparianVegPercent p.maxRiparianVegEffectiveness p.soilErodibility p.bankErosionCoeff p.linkSlope p.bankFullFlow p.bankMgtFactor p.sedBulkDensity p.bankHeight p.linkLength p.dailyFlowPowerFactor p.longTermAvDailyFlow p.soilPercentFine p.durationInSeconds meanAnnual outflow totalVolume = BankErosion.step p meanAnnual (outflow, totalVolume) := by
+  refine ⟨rfl, rfl, ?_⟩
+  unfold bankErosion.step BankErosion.step BankErosion.totalKgPerSecond BankErosion.linkDischargeFactor
+  simp only [Units.daysPerYear, Units.tonnesToKg, Units.percentToProportion]
+  all_goals tie
+
+/-- the constant expression `2 * math.Pi`, folded exactly and rounded once by the Go compiler (the float64
+0x401921FB54442D18, printed with the shortest decimal that round-trips), is the `twoPi` of the hand model (the same float64,
+written with 31 digits). The two decimals are different reals (they differ by < 5e-16), so this holds at `Float` only
+(`#guard` below): at `ℝ` the tie of `usleFine` is modulo this literal. -/
+def TwoPi (α : Type) [Num α] : Prop := (6.283185307179586 : α) = UsleFine.twoPi
+
+/-- `usleFine` = `UsleFine.step` (including the dead `useAvModel` branch) -/
+theorem gen_eq_UsleFine {α} [Num α] (h2pi : TwoPi α) (p : UsleFine.Params α) (i : UsleFine.In α) :
+    usleFine.guard p.s p.p p.rainThreshold p.alpha p.beta p.eta p.a1 p.a2 p.a3 p.dwc p.avK p.avLS p.avFines p.area p.maxConc p.usleHSDRFine p.usleHSDRCoarse p.timeStepInSeconds = false ∧
+    UsleFine.step p i =
+      (let r := usleFine.step p.s p.p p.rainThreshold p.alpha p.beta p.eta p.a1 p.a2 p.a3 p.dwc p.avK p.avLS p.avFines p.area p.maxConc p.usleHSDRFine p.usleHSDRCoarse p.timeStepInSeconds i.qf i.sf i.rain i.klsc i.klscFine i.cFactor i.doy
+       ⟨r.1, r.2.1, r.2.2.1, r.2.2.2.1, r.2.2.2.2.1, r.2.2.2.2.2.1, r.2.2.2.2.2.2.1, r.2.2.2.2.2.2.2⟩) := by
+  refine ⟨rfl, ?_⟩
+  unfold TwoPi at h2pi
+  unfold usleFine.step UsleFine.step UsleFine.rFactor UsleFine.adjustedRates UsleFine.litresPerDay
+  simp only [Units.mgPerLitreToKgPerM3, Units.squareMetresToHectares, Units.tonnesToKg, Units.kgToMilligram,
+    Units.cumecsToMegaLitresPerDay, Units.megaLitresToLitres, h2pi]
+  all_goals tie [h2pi]
+
+/-- the constant expression `1 / 365.25` of `gullyLoadOrig`, folded by the Go compiler, is the quotient the hand model
+computes at run time (equal at `Float`: IEEE division of two exactly representable numbers is the correctly rounded exact
+quotient; `#guard` below. Different reals.) -/
+def AnnualToDaily (α : Type) [Num α] : Prop := (0.0027378507871321013 : α) = 1 / 365.25
+
+/-- `sednetGullyOrig` (the whole body is `sednetGully(…, gullyLoadOrig)`) = `SednetGully.step gullyLoadOrig` -/
+theorem gen_eq_SednetGully {α} [Num α] (hadj : AnnualToDaily α) (p : SednetGully.Params α) (q yr ar al : α) :
+    sednetGullyOrig.delegates p.yearDisturbance p.gullyEndYear p.area p.averageGullyActivityFactor p.annualAverageSedimentSupply p.percentFine p.managementPracticeFactor p.longtermRunoffFactor p.dailyRunoffPowerFactor p.sdrFine p.sdrCoarse p.timestepInSeconds = true ∧
+    sednetGullyOrig.delegateStep p.yearDisturbance p.gullyEndYear p.area p.averageGullyActivityFactor p.annualAverageSedimentSupply p.percentFine p.managementPracticeFactor p.longtermRunoffFactor p.dailyRunoffPowerFactor p.sdrFine p.sdrCoarse p.timestepInSeconds q yr ar al =
+      (let r := SednetGully.step SednetGully.gullyLoadOrig p (q, yr, ar, al)
+       (r.fineLoad, r.coarseLoad, r.generatedFine, r.generatedCoarse)) := by
+  refine ⟨rfl, ?_⟩
+  unfold AnnualToDaily at hadj
+  unfold sednetGullyOrig.delegateStep sednetGullyOrig.delegate.pre sednetGullyOrig.delegate.step
+    sednetGullyOrig.delegate.gullyLoadOrig SednetGully.step SednetGully.gullyLoadOrig SednetGully.dailyRunoffFactor
+    SednetGully.activityFactor
+  simp only [Units.tonnesToKg, hadj]
+  all_goals tie [hadj]
+
+/-- `sednetGullyDerm` (the whole body is `sednetGully(…, gullyLoadDerm)`) = `SednetGully.step gullyLoadDerm` -/
+theorem gen_eq_SednetGullyAlt {α} [Num α] (p : SednetGully.Params α) (q yr ar al : α) :
+    sednetGullyDerm.delegates p.yearDisturbance p.gullyEndYear p.area p.averageGullyActivityFactor p.annualAverageSedimentSupply p.percentFine p.managementPracticeFactor p.longtermRunoffFactor p.dailyRunoffPowerFactor p.sdrFine p.sdrCoarse p.timestepInSeconds = true ∧
+    sednetGullyDerm.delegateStep p.yearDisturbance p.gullyEndYear p.area p.averageGullyActivityFactor p.annualAverageSedimentSupply p.percentFine p.managementPracticeFactor p.longtermRunoffFactor p.dailyRunoffPowerFactor p.sdrFine p.sdrCoarse p.timestepInSeconds q yr ar al =
+      (let r := SednetGully.step SednetGully.gullyLoadDerm p (q, yr, ar, al)
+       (r.fineLoad, r.coarseLoad, r.generatedFine, r.generatedCoarse)) := by
+  refine ⟨rfl, ?_⟩
+  unfold sednetGullyDerm.delegateStep sednetGullyDerm.delegate.pre sednetGullyDerm.delegate.step
+    sednetGullyDerm.delegate.gullyLoadDerm SednetGully.step SednetGully.gullyLoadDerm SednetGully.activityFactor
+  simp only [Units.metresToMillimetres, Units.secondsPerDay]
+  all_goals tie
+
+/-! ### models/routing: dissolved nutrient, fine sediment -/
+
+/-- `instreamDissolvedNutrient`. Before the loop the code reads `reachVolume[0]` (`v0`: the initial `prevVolume`, a hidden
+state of the loop — it is carried between iterations and not returned). The branch `doDecay < 0.5` runs
+`LumpedConstituentTransport` (= `LumpedConstituent.step` with the point source per second, hypothesis `LitZero` as for
+`gen_eq_LumpedConstituent`); otherwise one iteration is `InstreamDissolvedNutrient.step` (the hand model writes the `0` of
+the comparisons as `0.0`: hypothesis `NatZero`), the returned `storedMass` passing through unchanged. -/
+theorem gen_eq_InstreamDissolvedNutrient {α} [Num α] (hz : LitZero α) (h0 : NatZero α)
+    (sm dd psl lh lw ll uv dur v0 s tsd psps pv up lat vol out : α) :
+    instreamDissolvedNutrient.delegates sm dd psl lh lw ll uv dur v0 = decide (dd < 0.5) ∧
+    instreamDissolvedNutrient.delegateInit sm dd psl lh lw ll uv dur v0 = sm ∧
+    instreamDissolvedNutrient.delegateFinal sm dd psl lh lw ll uv dur v0 s = s ∧
+    instreamDissolvedNutrient.delegateStep sm dd psl lh lw ll uv dur v0 s up lat vol out =
+      (let r := LumpedConstituent.step (psl / 31557600) dur s (up, lat, out, vol)
+       (r.1, (Num.zero, r.2.outflowLoad, r.2.pointSourceLoad))) ∧
+    instreamDissolvedNutrient.pre sm dd psl lh lw ll uv dur v0 = (86400 / dur, psl / 31557600) ∧
+    instreamDissolvedNutrient.init sm dd psl lh lw ll uv dur v0 = (sm, v0) ∧
+    instreamDissolvedNutrient.guard sm dd psl lh lw ll uv dur v0 = false ∧
+    instreamDissolvedNutrient.step dd psl lh lw ll uv dur tsd psps sm pv up lat vol out =
+      (let r := InstreamDissolvedNutrient.step sm psps lh lw ll uv dur tsd pv (up, lat, vol, out)
+       ((sm, r.1), (r.2.decayed.getD Num.zero, r.2.downstream, r.2.pointSource.getD Num.zero))) := by
+  refine ⟨rfl, rfl, rfl, ?_, rfl, rfl, rfl, ?_⟩
+  · unfold LitZero at hz
+    unfold instreamDissolvedNutrient.delegateStep instreamDissolvedNutrient.delegate.step LumpedConstituent.step
+    simp only [LumpedConstituent.minimumVolume]
+    all_goals tie [hz]
+  · unfold NatZero at h0
+    unfold instreamDissolvedNutrient.step InstreamDissolvedNutrient.step
+    simp only [h0]
+    all_goals tie [h0]
+
+/-- the constants `units.TONNES_TO_KG = 1e3` and `units.SECONDS_PER_DAY = 24 * 60 * 60` are rendered as the integers they
+are; the hand model of the fine-sediment kernel writes them `1000.0` and `86400.0` -/
+def Lit1000 (α : Type) [Num α] : Prop := (1000 : α) = 1000.0
+def Lit86400 (α : Type) [Num α] : Prop := (86400 : α) = 86400.0
+
+/-- helper `floodPlainDepositionEmperical` of instream_fine_sediment.go = the hand model's -/
+theorem gen_eq_InstreamFineSediment_floodPlain {α} [Num α] (a b c d e : α) :
+    instreamFineSediment.floodPlainDepositionEmperical a b c d e = InstreamFineSediment.floodPlainDepositionEmperical a b c d e := by
+  unfold instreamFineSediment.floodPlainDepositionEmperical InstreamFineSediment.floodPlainDepositionEmperical
+  all_goals tie
+
+/-- helper `inChannelStorage` of instream_fine_sediment.go = the hand model's (`stc` inlined) -/
+theorem gen_eq_InstreamFineSediment_inChannel {α} [Num α] (h1 : Lit1000 α) (h2 : Lit86400 α) (a b c d e f g h i j : α) :
+    instreamFineSediment.inChannelStorage a b c d e f g h i j = InstreamFineSediment.inChannelStorage a b c d e f g h i j := by
+  unfold Lit1000 at h1
+  unfold Lit86400 at h2
+  unfold instreamFineSediment.inChannelStorage InstreamFineSediment.inChannelStorage InstreamFineSediment.stc
+  simp only [h1, h2]
+  all_goals tie [h1, h2]
+
+/-- `instreamFineSediment`, main path (`bankFullFlow > 1e-8`): `pre` = `maxStorage`, `init` = `initStore`, one iteration =
+`stepMain`. The branch `bankFullFlow <= 1e-8` (it builds a temporary series and calls LumpedConstituentTransport) is NOT
+translated: only its condition is tied (`abstractBranch` = `lumped`). -/
+theorem gen_eq_InstreamFineSediment {α} [Num α] (h1 : Lit1000 α) (h2 : Lit86400 α) (p : InstreamFineSediment.Params α)
+    (csf tsm up lat loc vol out : α) :
+    instreamFineSediment.abstractBranch csf tsm p.bankFullFlow p.fineSedSettVelocityFlood p.floodPlainArea p.linkWidth p.linkLength p.linkSlope p.bankHeight p.propBankHeightForFineDep p.sedBulkDensity p.manningsN p.fineSedSettVelocity p.fineSedReMobVelocity p.durationInSeconds = InstreamFineSediment.lumped p ∧
+    instreamFineSediment.pre csf tsm p.bankFullFlow p.fineSedSettVelocityFlood p.floodPlainArea p.linkWidth p.linkLength p.linkSlope p.bankHeight p.propBankHeightForFineDep p.sedBulkDensity p.manningsN p.fineSedSettVelocity p.fineSedReMobVelocity p.durationInSeconds = InstreamFineSediment.maxStorage p ∧
+    instreamFineSediment.init csf tsm p.bankFullFlow p.fineSedSettVelocityFlood p.floodPlainArea p.linkWidth p.linkLength p.linkSlope p.bankHeight p.propBankHeightForFineDep p.sedBulkDensity p.manningsN p.fineSedSettVelocity p.fineSedReMobVelocity p.durationInSeconds = (InstreamFineSediment.initStore p csf, tsm) ∧
+    instreamFineSediment.guard csf tsm p.bankFullFlow p.fineSedSettVelocityFlood p.floodPlainArea p.linkWidth p.linkLength p.linkSlope p.bankHeight p.propBankHeightForFineDep p.sedBulkDensity p.manningsN p.fineSedSettVelocity p.fineSedReMobVelocity p.durationInSeconds = false ∧
+    instreamFineSediment.step p.bankFullFlow p.fineSedSettVelocityFlood p.floodPlainArea p.linkWidth p.linkLength p.linkSlope p.bankHeight p.propBankHeightForFineDep p.sedBulkDensity p.manningsN p.fineSedSettVelocity p.fineSedReMobVelocity p.durationInSeconds (InstreamFineSediment.maxStorage p) csf tsm up lat loc vol out =
+      (let r := InstreamFineSediment.stepMain p (csf, tsm) (up, lat, loc, vol, out)
+       (r.1, (r.2.loadDownstream, r.2.loadToFloodplain, r.2.loadToChannelDeposition, r.2.floodplainDepositionFraction,
+              r.2.channelDepositionFraction))) := by
+  have h1' := h1
+  unfold Lit1000 at h1'
+  refine ⟨rfl, ?_, ?_, rfl, ?_⟩
+  · unfold instreamFineSediment.pre InstreamFineSediment.maxStorage
+    simp only [h1']
+  · unfold instreamFineSediment.init InstreamFineSediment.initStore InstreamFineSediment.maxStorage
+    simp only [h1']
+    all_goals tie [h1']
+  · unfold instreamFineSediment.step InstreamFineSediment.stepMain
+    simp only [gen_eq_InstreamFineSediment_floodPlain, gen_eq_InstreamFineSediment_inChannel h1 h2]
+    all_goals tie
+
+/-! ### models/functions/baseflow.go, models/climate -/
+
+/-- `baseflowFilter`: the loop body is empty — one iteration has no result (`Unit`: no output is written, as in
+`BaseflowFilter.run`, which returns zeros); a body that writes something changes the type of `step` -/
+theorem gen_eq_BaseflowFilter {α} [Num α] (x : α) :
+    baseflowFilter.step x = () ∧ baseflowFilter.guard (α := α) = false := ⟨rfl, rfl⟩
+
+/-- the bisection of `calcWetBulb` (`boundedLoop body 40 …`, carried values in declaration order
+`rtb dx xmid psat wstar fmid`) is `Climate.bisect`, for any `body` that computes what the loop body says -/
+theorem gen_eq_ClimateVariables_bisect {α} [Num α] (pa h : α)
+    (body : α × α × α × α × α × α → (α × α × α × α × α × α) × Bool)
+    (hbody : ∀ rtb dx xmid psat wstar fmid, body (rtb, dx, xmid, psat, wstar, fmid) =
+      (let dx' := dx * 0.5
+       let xmid' := rtb + dx'
+       let psat' := Climate.vaporPressure xmid'
+       let wstar' := Climate.humidityRatio psat' pa
+       let fmid' := Climate.enthalpy xmid' wstar'
+       let rtb' := if 0 < h - fmid' then xmid' else rtb
+       ((rtb', dx', xmid', psat', wstar', fmid'), decide (Num.abs dx' < Climate.acc)))) :
+    ∀ n rtb dx xmid psat wstar fmid,
+      (boundedLoop body n (rtb, dx, xmid, psat, wstar, fmid)).1 = Climate.bisect (Climate.satEnthalpy pa) h n rtb dx := by
+  intro n
+  induction n with
+  | zero => intros; rfl
+  | succ n ih =>
+    intro rtb dx xmid psat wstar fmid
+    unfold boundedLoop Climate.bisect
+    simp only [hbody, Climate.satEnthalpy]
+    split <;> rename_i hc
+    · simp only [decide_eq_true_eq] at hc
+      simp only [hc, ↓reduceIte]
+      try rfl
+    · simp only [decide_eq_true_eq] at hc
+      simp only [hc, ↓reduceIte]
+      exact ih _ _ _ _ _ _
+
+/-- `climateVariables`: the helpers `barometricPressure`, `calcVaporPressure`, `calcDewPoint`, `calcHumidityRatio`,
+`calcHumidityRatioActual`, `calcEnthalpy`, `calcWetBulb` (the 40-step bisection with `break`) translated from the source
+are the hand model's, and one iteration is `Climate.sample`. The source compares `(hEnthalpy - fmid) > 0.0`, the hand
+model `0 < h - fmid`: hypothesis `NatZero`. -/
+theorem gen_eq_ClimateVariables {α} [Num α] (h0 : NatZero α) (elevation pa t rh x y z u : α) :
+    climateVariables.barometricPressure elevation = Climate.barometricPressure elevation ∧
+    climateVariables.calcVaporPressure t = Climate.vaporPressure t ∧
+    climateVariables.calcDewPoint t rh = Climate.dewPoint t rh ∧
+    climateVariables.calcHumidityRatio x y = Climate.humidityRatio x y ∧
+    climateVariables.calcHumidityRatioActual x y z = Climate.humidityRatioActual x y z ∧
+    climateVariables.calcEnthalpy x y = Climate.enthalpy x y ∧
+    climateVariables.calcWetBulb x y z u = Climate.wetBulb x y z u ∧
+    climateVariables.pre elevation = Climate.barometricPressure elevation ∧
+    climateVariables.guard elevation = false ∧
+    climateVariables.step elevation pa t rh =
+      (let r := Climate.sample pa t rh; (r.vaporPressure, r.dewPoint, r.wetBulb, r.deltaT)) := by
+  unfold NatZero at h0
+  have hvp : ∀ t : α, climateVariables.calcVaporPressure t = Climate.vaporPressure t := by
+    intro t
+    unfold climateVariables.calcVaporPressure Climate.vaporPressure
+    all_goals tie
+  have hdp : ∀ t rh : α, climateVariables.calcDewPoint t rh = Climate.dewPoint t rh := by
+    intro t rh
+    unfold climateVariables.calcDewPoint Climate.dewPoint
+    simp only [hvp]
+    all_goals tie
+  have hra : ∀ x y z : α, climateVariables.calcHumidityRatioActual x y z = Climate.humidityRatioActual x y z := by
+    intro x y z
+    unfold climateVariables.calcHumidityRatioActual Climate.humidityRatioActual
+    simp only [hvp]
+    rfl
+  have hwb : ∀ x y z u : α, climateVariables.calcWetBulb x y z u = Climate.wetBulb x y z u := by
+    intro x y z u
+    unfold climateVariables.calcWetBulb Climate.wetBulb
+    refine gen_eq_ClimateVariables_bisect u z _ (fun rtb dx xmid psat wstar fmid => ?_) 40 _ _ _ _ _ _
+    simp only [hvp, ← h0]
+    have he : ∀ a b : α, climateVariables.calcEnthalpy a b = Climate.enthalpy a b := fun _ _ => rfl
+    have hh : ∀ a b : α, climateVariables.calcHumidityRatio a b = Climate.humidityRatio a b := fun _ _ => rfl
+    simp only [he, hh, Climate.acc]
+    all_goals tie
+  refine ⟨rfl, hvp t, hdp t rh, rfl, hra x y z, rfl, hwb x y z u, rfl, rfl, ?_⟩
+  unfold climateVariables.step Climate.sample
+  simp only [hvp, hdp, hra, hwb]
+  rfl
+
+/-! ### the literal identities at `Float` (evaluated, not proved) -/
+
+/-- the literal hypotheses of this file as Boolean tests with Go's `==` -/
+def litChecks (α : Type) [Num α] : List Bool :=
+  [Num.feq (0.0 : α) Num.zero, Num.feq (0 : α) 0.0, Num.feq (1000 : α) 1000.0, Num.feq (86400 : α) 86400.0,
+   Num.feq (6.283185307179586 : α) UsleFine.twoPi, Num.feq (0.0027378507871321013 : α) (1 / 365.25)]
+
+#guard (litChecks Float).all id
 
 end OW.Props.GenTie
